@@ -46,15 +46,16 @@ def main():
         print(f"sens {a.id} {os.path.basename(a.mutant)} rc={r.returncode} -> {'CAUGHT' if r.returncode == 1 else 'MISSED'}")
         return 0 if r.returncode == 1 else 1
     finally:
+        # drop the C++ build made from THIS copy's sources if they were mutated (other runs may be building theirs right now)
+        def bdir(repo):
+            r = subprocess.run(["/venv/bin/python", "-c", "from vlib import cppext; print(cppext.build_dir())"], cwd="/verif",
+                               env=dict(os.environ, VERIF_REPO=repo), capture_output=True, text=True).stdout.strip().splitlines()[-1:]
+            return r[0] if r else None
+
+        mine, cur = bdir(d), bdir("/repo")
         shutil.rmtree(d, ignore_errors=True)
-        # drop C++ builds made from mutated sources
-        cur = subprocess.run(["/venv/bin/python", "-c", "from vlib import cppext; print(cppext.build_dir())"], cwd="/verif",
-                             capture_output=True, text=True).stdout.strip().splitlines()[-1:]
-        b = "/verif/.build"
-        if os.path.isdir(b):
-            for n in os.listdir(b):
-                if n.startswith("cpp-") and os.path.join(b, n) not in cur:
-                    shutil.rmtree(os.path.join(b, n), ignore_errors=True)
+        if mine and mine != cur and os.path.basename(mine).startswith("cpp-"):
+            shutil.rmtree(mine, ignore_errors=True)
 
 
 if __name__ == "__main__":
